@@ -62,6 +62,8 @@ type env struct {
 	ov    map[string]*ovSeed
 	g     *guard
 	caseN int
+	// unavailable: seeds the current tree cannot produce (name -> reason); reported as notes
+	unavailable map[string]string
 }
 
 func (e *env) ovSeed(name string) *ovSeed {
@@ -103,6 +105,10 @@ func (e *env) runCase(c Case, r *runner.Rec) {
 	default:
 		sd = e.seeds.get(c.Seed)
 		real, fl = sd.patch[c.Comp], sd.flatPatch
+	}
+	if sd != nil && sd.unavailable != "" {
+		r.Outcome("seed-unavailable")
+		return
 	}
 	if real == nil {
 		panic(fmt.Sprintf("harness: no %s stream for seed %s under %q", kind, c.Seed, c.Comp))
@@ -383,7 +389,7 @@ func body(w *runner.W) {
 			os.RemoveAll(filepath.Join(w.Scratch(), en.Name()))
 		}
 	}
-	e := &env{w: w, seeds: newSeedSet(filepath.Join(w.Scratch(), "seeds"), w.Seed), ov: map[string]*ovSeed{}, g: &guard{}}
+	e := &env{w: w, seeds: newSeedSet(filepath.Join(w.Scratch(), "seeds"), w.Seed), ov: map[string]*ovSeed{}, g: &guard{}, unavailable: map[string]string{}}
 	run := e.runCase
 	thorough := !w.Quick()
 
@@ -400,6 +406,9 @@ func body(w *runner.W) {
 		t0 = time.Now()
 		for k, v := range counts {
 			s.Note(k, v)
+		}
+		for name, why := range e.unavailable {
+			s.Note("seed_unavailable:"+name, why)
 		}
 		if complete {
 			s.Done()
@@ -421,6 +430,10 @@ func body(w *runner.W) {
 			}
 			for _, name := range fieldSeedNames {
 				sd := e.seeds.get(name)
+				if sd.unavailable != "" {
+					e.unavailable[name] = sd.unavailable
+					continue
+				}
 				for _, comp := range comps {
 					for _, t := range targets {
 						opt.Do(Case{Seed: name, Comp: comp, Target: t})
@@ -444,6 +457,10 @@ func body(w *runner.W) {
 			if thorough {
 				for _, name := range pairSeedNames {
 					sd := e.seeds.get(name)
+					if sd.unavailable != "" {
+						e.unavailable[name] = sd.unavailable
+						continue
+					}
 					for _, ms := range e.pairMuts(sd.flatPatch) {
 						if e.g.exhausted() {
 							return false
@@ -468,6 +485,10 @@ func body(w *runner.W) {
 		complete := func() bool {
 			for _, name := range fieldSeedNames {
 				sd := e.seeds.get(name)
+				if sd.unavailable != "" {
+					e.unavailable[name] = sd.unavailable
+					continue
+				}
 				for _, comp := range comps {
 					for _, t := range bowls {
 						af.Do(Case{Seed: name, Comp: comp, Target: t})
@@ -494,6 +515,10 @@ func body(w *runner.W) {
 		complete := func() bool {
 			for _, name := range patchSeedNames {
 				sd := e.seeds.get(name)
+				if sd.unavailable != "" {
+					e.unavailable[name] = sd.unavailable
+					continue
+				}
 				for _, comp := range comps {
 					for _, t := range bowls {
 						for cut := 0; cut < len(sd.patch[comp]); cut++ {
@@ -519,6 +544,10 @@ func body(w *runner.W) {
 		complete := func() bool {
 			for _, name := range sigSeedNames {
 				sd := e.seeds.get(name)
+				if sd.unavailable != "" {
+					e.unavailable[name] = sd.unavailable
+					continue
+				}
 				for _, comp := range comps {
 					sf.Do(Case{Seed: name, Comp: comp, Target: "signature"})
 					for _, ms := range e.fieldMuts(sd.flatSig, true) {
@@ -551,6 +580,10 @@ func body(w *runner.W) {
 		complete := func() bool {
 			for _, name := range sigSeedNames {
 				sd := e.seeds.get(name)
+				if sd.unavailable != "" {
+					e.unavailable[name] = sd.unavailable
+					continue
+				}
 				for _, comp := range comps {
 					for cut := 0; cut < len(sd.sig[comp]); cut++ {
 						if e.g.exhausted() {
@@ -625,6 +658,10 @@ func body(w *runner.W) {
 		complete := func() bool {
 			for _, name := range pairSeedNames {
 				sd := e.seeds.get(name)
+				if sd.unavailable != "" {
+					e.unavailable[name] = sd.unavailable
+					continue
+				}
 				for _, t := range bowls {
 					for _, ms := range e.pairMuts(sd.flatPatch) {
 						if e.g.exhausted() {
